@@ -314,14 +314,12 @@ fn c16_error_attributes_wire() {
 #[kani::stub(stun_types::message::Message::unknown_attributes, unknown_attributes_stub)]
 #[kani::stub(stun_types::message::Message::bad_request, bad_request_stub)]
 fn c16_fixed_request_rec() {
-    let hdr = crate::agentworld::header_msg(0, 0x001, crate::agentworld::tid(1));
-    let mut buf = [0u8; 32];
-    buf[..20].copy_from_slice(&hdr);
-    buf[3] = 12;
-    buf[21] = 0x24;
-    buf[25] = 0x06;
-    buf[28] = 0x80;
-    buf[29] = 0x22;
+    // a LITERAL buffer: Binding request, id 01..0c, PRIORITY, USERNAME, SOFTWARE with empty values
+    // (bytes assembled at run time, even from constants, are not folded by CBMC and the attribute
+    // walk inside the policing nest is then 2.9 M symex steps)
+    let buf: [u8; 32] = [
+        0x00, 0x01, 0x00, 0x0c, 0x21, 0x12, 0xa4, 0x42, 1, 2, 3, 4, 5, 6, 7, 8, 9, 10, 11, 12, 0x00, 0x24, 0, 0, 0x00, 0x06, 0, 0, 0x80, 0x22, 0, 0,
+    ];
     let msg = Message::from_bytes(&buf).unwrap();
     let sup: [u16; 2] = kani::any();
     let req: u16 = kani::any();
